@@ -282,6 +282,17 @@ def concrete_suite(ctx):
     ds1d = builders.cf1d(3, 4, lat=lat[::-1].copy(), lon=lon, data_vars={'temp': (('k', 'y', 'x'), data[:, ::-1, :].copy())})
     ds1d = ds1d.assign_coords(zc=(('k',), numpy.array([1.0, 3.0]), {'positive': 'down', 'long_name': 'depth', 'units': 'm'}))
     datasets.append((ds1d, 'temp', lines1[:4] + lines1[7:]))
+    # paths with many vertices (11, 12, 21, 41) zig-zagging over a wider grid; every leg crosses cells of its own
+    lon12 = 100.0 + numpy.arange(12.0)
+    data12 = numpy.arange(2 * 3 * 12, dtype=float).reshape(2, 3, 12)
+    ds12 = builders.cf1d(3, 12, lat=lat, lon=lon12, data_vars={'temp': (('k', 'y', 'x'), data12)})
+    ds12 = ds12.assign_coords(zc=(('k',), numpy.array([1.0, 3.0]), {'positive': 'down', 'long_name': 'depth', 'units': 'm'}))
+    lines12 = []
+    for nv in (11, 12, 21, 41):
+        xs = numpy.linspace(99.8, 111.3, nv)
+        lines12.append([(float(x), 9.83 + 2.41 * (k % 2) + 0.013 * k) for k, x in enumerate(xs)])
+    lines12.append([(float(x), 10.2 + 0.07 * k) for k, x in enumerate(numpy.linspace(111.2, 99.9, 23))])
+    datasets.append((ds12, 'temp', lines12))
     deferred = []      # reported after everything else has been checked
     from harness import geomref as _geomref
     for ds, var, lines in datasets:
